@@ -1610,6 +1610,8 @@ package bigbuff
 //@   ensures nounsub : !lastres(stop, 0) ==> icalls("(*ChanPubSub).Unsubscribe") == 0
 //@   ensures-panic unsub_p : yield == nil && calls(stop) == 1 ==> (lastres(stop, 0) ==> icalls("(*ChanPubSub).Unsubscribe") == 1) && (!lastres(stop, 0) ==> icalls("(*ChanPubSub).Unsubscribe") == 0)
 //@   ensures stopped : calls(stop) == 1
+//@   # the subscription is also withdrawn when the iterator is left by unwinding (the loop body panics, runtime.Goexit)
+//@   ensures-panic unsub_unwind : calls(stop) == 1 && lastres(stop, 0) ==> icalls("(*ChanPubSub).Unsubscribe") == 1
 //@   loop 0 invariant iter : lastres(stop, 0) && calls(stop) == 1 && icalls("(*ChanPubSub).Unsubscribe") == 0 && yield != nil
 //@   # every value the iterator has taken and acknowledged (Wait) is handed to the caller: nothing is dropped after the sender counted it
 //@   loop 0 invariant handed : icalls("(*ChanPubSub).Wait") == calls(yield)
